@@ -17,7 +17,9 @@ package engine
 
 import (
 	"context"
+	"errors"
 	"fmt"
+	"os"
 	"path"
 	"regexp"
 	"runtime/debug"
@@ -235,7 +237,8 @@ func removeWalFiles(files *WalFiles) error {
 	lock := fileops.FileLockOption(*files.lock)
 	for _, f := range files.files {
 		e := fileops.Remove(f, lock)
-		if e != nil {
+		// a log file that is already gone (its database, policy or shard was dropped meanwhile) needs no removal
+		if e != nil && !errors.Is(e, os.ErrNotExist) {
 			err = e
 			logger.NewLogger(errno.ModuleWal).Error("failed to remove wal file", zap.String("file", f), zap.Error(err))
 		}
